@@ -138,7 +138,14 @@ fn replay(h: &Value, ops: &[Op], specs: &[Value], scale: f64, want: &MWant, rep:
                     addonly[*d] = false;
                 }
                 Op::Clone(d, s) => {
-                    w[*d] = w[*s].clone();
+                    // Clone::clone / Clone::clone_from alternately: the same step of the specification
+                    let src = w[*s].clone();
+                    if step % 2 == 1 {
+                        w[*d].mn.clone_from(&src.mn);
+                        w[*d].mx.clone_from(&src.mx);
+                    } else {
+                        w[*d] = src;
+                    }
                     ghost[*d] = ghost[*s].clone();
                     addonly[*d] = addonly[*s];
                 }
@@ -162,6 +169,19 @@ fn replay(h: &Value, ops: &[Op], specs: &[Value], scale: f64, want: &MWant, rep:
                             }
                             if rx.max().to_bits() != b.to_bits() || w[*s].mx.max().to_bits() != b.to_bits() {
                                 viol(rep, "C18", "Max", scale, h, *s, "roundtrip", format!("restored Max differs: {} vs {}", fmt_f(rx.max()), fmt_f(b)));
+                            }
+                            let (mut rm, mut rx) = (rm, rx);
+                            if let (Ok(pm), Ok(px)) = (crate::posfmt::roundtrip(&w[*s].mn), crate::posfmt::roundtrip(&w[*s].mx)) {
+                                rep.evaluations += 2;
+                                if pm.min().to_bits() != a.to_bits() || px.max().to_bits() != b.to_bits() {
+                                    viol(rep, "C18", "Min/Max", scale, h, *s, "roundtrip (positional format)", format!("restored extremes {} / {} differ from {} / {}", fmt_f(pm.min()), fmt_f(px.max()), fmt_f(a), fmt_f(b)));
+                                }
+                                if step % 2 == 1 {
+                                    rm = pm;
+                                    rx = px;
+                                }
+                            } else {
+                                rep.bump("positional_format_not_supported", 1);
                             }
                             w[*s] = Pair { mn: rm, mx: rx };
                         } else {
